@@ -67,17 +67,17 @@ void sp_book_finish(sp_book *b){
   b->used_idx=malloc(sizeof(long)*b->used); b->cw=calloc(n,sizeof(uint32_t));
   { long k=0; for(long i=0;i<n;i++) if(b->len[i]) b->used_idx[k++]=i; }
   /* free list */
-  struct { uint32_t prefix; int depth; } fl[40]; int nf=1; fl[0].prefix=0; fl[0].depth=0; int ok=1;
+  struct { uint64_t prefix; int depth; } fl[40]; int nf=1; fl[0].prefix=0; fl[0].depth=0; int ok=1;
   if(b->used==1){
     long e=b->used_idx[0];
     if(b->len[e]==1){ b->cw[e]=0; b->valid=1; } else ok=0;
   } else {
     for(long q=0;q<b->used && ok;q++){
-      long e=b->used_idx[q]; int L=b->len[e]; int bi=-1; uint32_t bc=0;
-      for(int f=0;f<nf;f++) if(fl[f].depth<=L){ uint32_t c=fl[f].prefix<<(L-fl[f].depth); if(bi<0||c<bc){ bi=f; bc=c; } }
+      long e=b->used_idx[q]; int L=b->len[e]; int bi=-1; uint64_t bc=0;
+      for(int f=0;f<nf;f++) if(fl[f].depth<=L){ uint64_t c=fl[f].prefix<<(L-fl[f].depth); if(bi<0||c<bc){ bi=f; bc=c; } }
       if(bi<0){ ok=0; break; }       /* over-specified tree */
-      b->cw[e]=bc;
-      int d=fl[bi].depth; uint32_t p=fl[bi].prefix; fl[bi]=fl[--nf];
+      b->cw[e]=(uint32_t)bc;
+      int d=fl[bi].depth; uint64_t p=fl[bi].prefix; fl[bi]=fl[--nf];
       for(int i=d+1;i<=L;i++){ /* sibling subtrees along the path become free: prefix, zeros..., then a 1 */
         if(nf>=40){ ok=0; break; }
         fl[nf].prefix=((p<<(i-d-1))<<1)|1; fl[nf].depth=i; nf++;
